@@ -17,6 +17,7 @@
   the search of an absent name).
 -/
 import AHP.Props.C02Code
+import AHP.Props.C08Code
 namespace AHP.C13Code
 open AHP AHP.Gen AHP.Conv AHP.PyAst AHP.Gen.Code AHP.PyAstParser
 
@@ -244,6 +245,180 @@ theorem v_handle_endtag_code_eq_model (tagOf : Nat → Str) (fuel : Nat) (s : TS
         simp only [vEnd, if_neg hm, if_neg hc, ofOutcome]
         exact ⟨trivial, by simp, by simp, by simp⟩
 
+/-! ### `handle_starttag`: the attribute names are checked, then the base class is called -/
+
+/-- the attribute list a start-tag callback receives: (name, value) pairs, a value being a text or `None` -/
+def embA (a : List Attr) : List (PyV × PyV) :=
+  a.map (fun p => (PyV.str p.1, match p.2 with | some v => PyV.str v | none => PyV.none))
+
+/-- What `handle_starttag` runs in: `isValidAttributeName` is the dumped function of Tags.py (`Gen.Code.tags`, tied to
+`validAttrName` by `C08Code.isValidAttributeName_code_eq_model`), `AdvancedHTMLParser.handle_starttag(self, …)` is the parameter
+`base` (what it does to the object and what it returns). -/
+def vCx (parseInt : Str → Except PyErr Int) (base : MethSem) : Ctx :=
+  { parseInt := parseInt
+    funs := callIn parseInt tags.reverse
+    baseMeth := fun m => if m = "handle_starttag" then some base else none }
+
+theorem vCx_base (parseInt : Str → Except PyErr Int) (base : MethSem) :
+    (vCx parseInt base).baseMeth "handle_starttag" = some base := rfl
+
+/-- the call `isValidAttributeName(attrName)` inside the method is the hand model's predicate -/
+theorem vCx_valid (parseInt : Str → Except PyErr Int) (base : MethSem) (env : Env) (k : Str)
+    (h : env.lookup "attrName" = some (.py (.str k))) :
+    eval (vCx parseInt base) env (.call "isValidAttributeName" [.var "attrName"]) = .ok (.py (.bool (validAttrName k))) := by
+  have := C08Code.isValidAttributeName_code_eq_model parseInt k
+  simp only [eval, evalList, h]
+  exact this
+
+/-- the body of the loop, as dumped -/
+def checkBody : List Stmt :=
+  [.ifS (.cmp .is (.call "isValidAttributeName" [.var "attrName"]) (.const (.bool false)))
+     [.raise (.callv (.excClass "InvalidAttributeNameException") [.var "tagName", .var "attrName", .var "attrValue"])] []]
+
+theorem exc_attr : excOf "InvalidAttributeNameException" = .other "InvalidAttributeNameException" := by decide
+
+/-- how the loop ends: normally when every name is valid, with the exception at the first invalid one -/
+def checkRes (a : List Attr) : Res :=
+  if a.all (fun p => validAttrName p.1) then .next else .exc (.other "InvalidAttributeNameException")
+
+/-- The loop over the attribute list: it ends as `checkRes` says and changes no variable but its own two. -/
+theorem checkLoop_run (parseInt : Str → Except PyErr Int) (base : MethSem) (same : Env → Bool) (V T : Val)
+    (hsame : ∀ env, env.lookup "attributeList" = some V → same env = true) :
+    ∀ (a : List Attr) (env : Env), env.lookup "attributeList" = some V → env.lookup "tagName" = some T →
+    ∃ env', forLoop (fun env v => match v with
+              | .tuple [x, y] => assocSet (assocSet env "attrName" (.py x)) "attrValue" (.py y) | _ => env)
+          (fun env => execL (vCx parseInt base) env checkBody) same ((embA a).map (fun p => Val.tuple [p.1, p.2])) env
+        = (env', checkRes a)
+      ∧ ∀ x, x ≠ "attrName" → x ≠ "attrValue" → env'.lookup x = env.lookup x := by
+  intro a
+  induction a with
+  | nil => intro env _ _; exact ⟨env, by simp [embA, forLoop, checkRes], fun _ _ _ => rfl⟩
+  | cons p r ih =>
+    intro env hV hT
+    obtain ⟨k, w⟩ := p
+    generalize hw : (match w with | some v => PyV.str v | none => PyV.none) = w'
+    have hkeep : ∀ x, x ≠ "attrName" → x ≠ "attrValue" →
+        (assocSet (assocSet env "attrName" (.py (.str k))) "attrValue" (.py w')).lookup x = env.lookup x := by
+      intro x h1 h2
+      rw [lookup_assocSet_ne _ _ _ _ h2, lookup_assocSet_ne _ _ _ _ h1]
+    have hn : (assocSet (assocSet env "attrName" (.py (.str k))) "attrValue" (.py w')).lookup "attrName" = some (.py (.str k)) := by
+      rw [lookup_assocSet_ne _ _ _ _ (by decide), lookup_assocSet_eq]
+    have hc := vCx_valid parseInt base _ k hn
+    have hitems : (embA ((k, w) :: r)).map (fun p => Val.tuple [p.1, p.2])
+        = .tuple [.str k, w'] :: (embA r).map (fun p => Val.tuple [p.1, p.2]) := by
+      simp only [embA, List.map_cons, hw]
+    rw [hitems, forLoop]
+    by_cases hk : validAttrName k = true
+    · have hstep : execL (vCx parseInt base) (assocSet (assocSet env "attrName" (.py (.str k))) "attrValue" (.py w')) checkBody
+          = (assocSet (assocSet env "attrName" (.py (.str k))) "attrValue" (.py w'), .next) := by
+        simp only [checkBody, execL, execS]
+        generalize (Expr.call "isValidAttributeName" [.var "attrName"]) = E at hc ⊢
+        simp [eval, hc, hk, Lit.toPy, pyCompare, compareB, pyIs, Val.unique, Val.truthy, truthy, execL]
+      simp only [hstep]
+      rw [hsame _ (by rw [hkeep _ (by decide) (by decide), hV]), if_pos rfl]
+      obtain ⟨env', h1, h2⟩ := ih _ (by rw [hkeep _ (by decide) (by decide), hV]) (by rw [hkeep _ (by decide) (by decide), hT])
+      refine ⟨env', ?_, fun x hx1 hx2 => by rw [h2 x hx1 hx2, hkeep x hx1 hx2]⟩
+      have : checkRes ((k, w) :: r) = checkRes r := by
+        simp only [checkRes, List.all_cons, hk, Bool.true_and]
+      rw [this]; exact h1
+    · have hk' : validAttrName k = false := by simpa using hk
+      have hstep : execL (vCx parseInt base) (assocSet (assocSet env "attrName" (.py (.str k))) "attrValue" (.py w')) checkBody
+          = (assocSet (assocSet env "attrName" (.py (.str k))) "attrValue" (.py w'),
+             .exc (.other "InvalidAttributeNameException")) := by
+        simp only [checkBody, execL, execS]
+        generalize (Expr.call "isValidAttributeName" [.var "attrName"]) = E at hc ⊢
+        simp [eval, evalList, hc, hk', Lit.toPy, pyCompare, compareB, pyIs, Val.unique, Val.truthy, truthy, execL, execS, hn,
+          lookup_assocSet_eq, hkeep "tagName" (by decide) (by decide), hT, callValue, raiseOf, exc_attr]
+      simp only [hstep]
+      refine ⟨_, ?_, hkeep⟩
+      have : checkRes ((k, w) :: r) = .exc (.other "InvalidAttributeNameException") := by simp [checkRes, hk']
+      rw [this]
+
+theorem v_handle_starttag_body : ValidatingAdvancedHTMLParser_handle_starttag_ast.body =
+    [.forPair "attrName" "attrValue" (.var "attributeList") checkBody,
+     .retBase "self" "handle_starttag" [.var "tagName", .var "attributeList", .var "isSelfClosing"]] := rfl
+
+/-- `handle_starttag(self, tagName, attributeList, isSelfClosing)` of the validating parser, for every attribute list, every
+object and every base-class method: with an invalid attribute name `InvalidAttributeNameException` before the base class is
+called (the object unchanged); otherwise exactly what `AdvancedHTMLParser.handle_starttag(self, tagName, attributeList,
+isSelfClosing)` does and returns. -/
+theorem v_handle_starttag_run (parseInt : Str → Except PyErr Int) (base : MethSem) (fs : List (String × Field)) (tag : Str)
+    (a : List Attr) (sc : Bool) :
+    (a.all (fun p => validAttrName p.1) = false →
+      runMeth (vCx parseInt base) ValidatingAdvancedHTMLParser_handle_starttag_ast fs
+          [.py (.str tag), .pairs (embA a), .py (.bool sc)]
+        = (some fs, .error (.other "InvalidAttributeNameException")))
+    ∧ (a.all (fun p => validAttrName p.1) = true →
+      ∀ fs' res, base fs [.py (.str tag), .pairs (embA a), .py (.bool sc)] = (some fs', res) →
+      runMeth (vCx parseInt base) ValidatingAdvancedHTMLParser_handle_starttag_ast fs
+          [.py (.str tag), .pairs (embA a), .py (.bool sc)] = (some fs', res)) := by
+  have hparams : ValidatingAdvancedHTMLParser_handle_starttag_ast.params
+      = [("self", none), ("tagName", none), ("attributeList", none), ("isSelfClosing", some (.const (.bool false)))] := rfl
+  have hV : ([("self", Val.obj fs), ("tagName", .py (.str tag)), ("attributeList", .pairs (embA a)),
+      ("isSelfClosing", .py (.bool sc))] : Env).lookup "attributeList" = some (.pairs (embA a)) := rfl
+  obtain ⟨env1, h1, hkeep⟩ := checkLoop_run parseInt base
+    (fun env' => decide (eval (vCx parseInt base) env' (.var "attributeList") = .ok (.pairs (embA a)))) (.pairs (embA a))
+    (.py (.str tag)) (by intro env h; simp [eval, h]) a _ hV rfl
+  have hfor : execS (vCx parseInt base) [("self", Val.obj fs), ("tagName", .py (.str tag)), ("attributeList", .pairs (embA a)),
+      ("isSelfClosing", .py (.bool sc))] (.forPair "attrName" "attrValue" (.var "attributeList") checkBody)
+      = (env1, checkRes a) := by
+    rw [execS]
+    simp only [eval, hV, Expr.isVar, if_true]
+    exact h1
+  have hs : env1.lookup "self" = some (.obj fs) := by rw [hkeep "self" (by decide) (by decide)]; rfl
+  have ht : env1.lookup "tagName" = some (.py (.str tag)) := by rw [hkeep "tagName" (by decide) (by decide)]; rfl
+  have hl : env1.lookup "attributeList" = some (.pairs (embA a)) := by rw [hkeep "attributeList" (by decide) (by decide)]; rfl
+  have hc : env1.lookup "isSelfClosing" = some (.py (.bool sc)) := by rw [hkeep "isSelfClosing" (by decide) (by decide)]; rfl
+  constructor
+  · intro hall
+    have hres : checkRes a = .exc (.other "InvalidAttributeNameException") := by simp [checkRes, hall]
+    rw [hres] at hfor
+    simp only [runMeth, hparams, bindArgs, List.lookup, Option.isSome, Bool.false_eq_true, if_false, List.isEmpty,
+      if_true, v_handle_starttag_body, execL_cons_exc _ _ _ _ _ _ hfor, hs, PyAst.resultOf]
+  · intro hall fs' res hb
+    have hres : checkRes a = .next := by simp [checkRes, hall]
+    rw [hres] at hfor
+    cases res with
+    | ok v =>
+      have h2 : execS (vCx parseInt base) env1
+          (.retBase "self" "handle_starttag" [.var "tagName", .var "attributeList", .var "isSelfClosing"])
+          = (assocSet env1 "self" (.obj fs'), .ret v) := by
+        simp [execS, evalList, eval, hs, ht, hl, hc, vCx_base, hb]
+      simp only [runMeth, hparams, bindArgs, List.lookup, Option.isSome, Bool.false_eq_true, if_false, List.isEmpty,
+        if_true, v_handle_starttag_body, execL_cons_next _ _ _ _ _ hfor, execL_cons_ret _ _ _ _ _ _ h2, lookup_assocSet_eq,
+        PyAst.resultOf]
+    | error e =>
+      have h2 : execS (vCx parseInt base) env1
+          (.retBase "self" "handle_starttag" [.var "tagName", .var "attributeList", .var "isSelfClosing"])
+          = (assocSet env1 "self" (.obj fs'), .exc e) := by
+        simp [execS, evalList, eval, hs, ht, hl, hc, vCx_base, hb]
+      simp only [runMeth, hparams, bindArgs, List.lookup, Option.isSome, Bool.false_eq_true, if_false, List.isEmpty,
+        if_true, v_handle_starttag_body, execL_cons_next _ _ _ _ _ hfor, execL_cons_exc _ _ _ _ _ _ h2, lookup_assocSet_eq,
+        PyAst.resultOf]
+
+/-- **The code tie of C13's start-tag step.**  The dumped `handle_starttag` raises `InvalidAttributeNameException` (object
+unchanged, base class not called) exactly when the hand model's `vStepT` answers `.invalidAttr` to the start tag — and to the
+self-closing start tag, which reaches the same method through `handle_startendtag` —, and otherwise is the base class's
+`handle_starttag` on the same arguments, as `vStepT` is the plain parser's `stepT`. -/
+theorem v_handle_starttag_code_eq_model (parseInt : Str → Except PyErr Int) (base : MethSem) (fs : List (String × Field))
+    (s : TState) (tag : Str) (a : List Attr) (sc : Bool) :
+    (a.all (fun p => validAttrName p.1) = false →
+      runMeth (vCx parseInt base) ValidatingAdvancedHTMLParser_handle_starttag_ast fs
+          [.py (.str tag), .pairs (embA a), .py (.bool sc)]
+        = (some fs, .error (.other "InvalidAttributeNameException"))
+      ∧ vStepT s (.start tag a) = .invalidAttr ∧ vStepT s (.startend tag a) = .invalidAttr)
+    ∧ (a.all (fun p => validAttrName p.1) = true →
+      (∀ fs' res, base fs [.py (.str tag), .pairs (embA a), .py (.bool sc)] = (some fs', res) →
+        runMeth (vCx parseInt base) ValidatingAdvancedHTMLParser_handle_starttag_ast fs
+          [.py (.str tag), .pairs (embA a), .py (.bool sc)] = (some fs', res))
+      ∧ vStepT s (.start tag a) = stepT s (.start tag a) ∧ vStepT s (.startend tag a) = stepT s (.startend tag a)) := by
+  obtain ⟨h1, h2⟩ := v_handle_starttag_run parseInt base fs tag a sc
+  constructor
+  · intro hall
+    exact ⟨h1 hall, by simp [vStepT, hall], by simp [vStepT, hall]⟩
+  · intro hall
+    exact ⟨h2 hall, by simp [vStepT, stepT, hall], by simp [vStepT, stepT, hall]⟩
+
 /-! ### the theorems are not vacuous, and the interpreter runs the dump -/
 
 -- A small budget, so that a broken example fails at once instead of searching; `decide +kernel` evaluates in the kernel and
@@ -275,5 +450,30 @@ example : (match vStepT ⟨[fr "i", fr "b", fr "div"], none⟩ (.end_ "i".toList
     ∧ (match vStepT ⟨[fr "i", fr "b", fr "div"], none⟩ (.end_ "b".toList) with | .missedClose => true | _ => false) = true
     ∧ (match vStepT ⟨[fr "i", fr "b", fr "div"], none⟩ (.end_ "p".toList) with | .invalidClose => true | _ => false) = true
     ∧ [3, 2, 1].map tg = (⟨[fr "i", fr "b", fr "div"], none⟩ : TState).stack.map (·.name) := by decide +kernel
+
+/-- a base-class method for the examples: it notes the tag name in a field and returns the number of attributes -/
+private def baseEx : MethSem := fun fs args =>
+  match args with
+  | [.py (.str t), .pairs kvs, .py (.bool _)] => (some (assocSet fs "last" (.py (.str t))), .ok (.py (.int kvs.length)))
+  | _ => (some fs, .error .typeError)
+private def pI : Str → Except PyErr Int := fun _ => .error .valueError
+
+/-- valid names (a value may be `None`): the base class runs, on the same arguments -/
+example : runMeth (vCx pI baseEx) ValidatingAdvancedHTMLParser_handle_starttag_ast (obj [1])
+      [.py (.str "p".toList), .pairs (embA [("id".toList, some "x".toList), ("data-k".toList, none)]), .py (.bool false)]
+    = (some (assocSet (obj [1]) "last" (.py (.str "p".toList))), .ok (.py (.int 2))) := by decide +kernel
+/-- the second name is invalid: `InvalidAttributeNameException`, the base class is not called (no field `last`) -/
+example : runMeth (vCx pI baseEx) ValidatingAdvancedHTMLParser_handle_starttag_ast (obj [1])
+      [.py (.str "p".toList), .pairs (embA [("id".toList, some "x".toList), ("1a".toList, none)]), .py (.bool false)]
+    = (some (obj [1]), .error (.other "InvalidAttributeNameException")) := by decide +kernel
+/-- `isSelfClosing` has the default `False` -/
+example : runMeth (vCx pI baseEx) ValidatingAdvancedHTMLParser_handle_starttag_ast (obj [])
+      [.py (.str "br".toList), .pairs (embA [])]
+    = (some (assocSet (obj []) "last" (.py (.str "br".toList))), .ok (.py (.int 0))) := by decide +kernel
+/-- the hand model on the same attribute lists -/
+example : (match vStepT ⟨[], none⟩ (.start "p".toList [("id".toList, some "x".toList), ("1a".toList, none)]) with
+      | .invalidAttr => true | _ => false) = true
+    ∧ (match vStepT ⟨[], none⟩ (.start "p".toList [("id".toList, some "x".toList), ("data-k".toList, none)]) with
+      | .ok _ => true | _ => false) = true := by decide +kernel
 
 end AHP.C13Code
